@@ -23,16 +23,38 @@ import (
 	"github.com/samsarahq/thunder/verifharness/vlib"
 )
 
-// classifier keys of genuine defects (see FINDINGS.md)
+// Classifier keys of genuine defects. Minimal inputs: repro_test.go
+// (TestReproFindings); proposed repairs: fixes.diff (applies to /repo with
+// `git apply`; thunder's graphql tests pass and this check is silent with it).
 const (
-	classRootTypename    = "root-typename-execute-fails"
-	classBytesNull       = "nonnull-bytes-nil-slice-null"
+	// `{ __typename }` at the query/mutation root passes PrepareQuery and fails
+	// in Execute ("invalid top-level selection"). Predicate: Execute error, no
+	// panic, root selects __typename, and the query without its root-level
+	// __typename executes.
+	classRootTypename = "root-typename-execute-fails"
+	// A nil []byte under an advertised `bytes!` is emitted as null.
+	classBytesNull = "nonnull-bytes-nil-slice-null"
+	// `type TMInt int32` with MarshalText is advertised as int32 and emitted
+	// as a JSON string (encoding/json uses MarshalText).
 	classNamedScalarText = "named-scalar-textmarshaler-emits-string"
-	classBatchEnumNull   = "batch-nullable-enum-missing-entry-fails"
-	classUnionUnmatched  = "nonnull-union-unmatched-member-null"
-	classTypenameLeak    = "union-typename-leaks-into-shared-fragment"
-	classRenamedMember   = "union-renamed-member-panics"
-	classBatchTMNull     = "batch-textmarshaler-missing-entry-panics"
+	// A BatchFieldFunc of (nullable) enum type that leaves an entry out makes
+	// Execute fail with "enum is not valid".
+	classBatchEnumNull = "batch-nullable-enum-missing-entry-fails"
+	// A BatchFieldFunc of text-marshaler struct type that leaves an entry out
+	// (or stores a nil pointer) panics in the scalar's Unwrapper on a scheduler
+	// goroutine: the process dies.
+	classBatchTMNull = "batch-textmarshaler-missing-entry-panics"
+	// A union member registered under a name other than its Go type name
+	// (schema.Object("Other", Member{})) makes resolveUnionBatch panic for every
+	// non-nil value of the union: the process dies.
+	classRenamedMember = "union-renamed-member-panics"
+	// Repaired in /repo by 223dd35: a non-null union whose member has no
+	// fragment in the query was emitted as null.
+	classUnionUnmatched = "nonnull-union-unmatched-member-null"
+	// Repaired in /repo by ab591bc: PrepareQuery appended a union-level
+	// __typename to shared named fragments, so it showed up where the fragment
+	// was spread elsewhere.
+	classTypenameLeak = "union-typename-leaks-into-shared-fragment"
 )
 
 // recoveringScheduler delegates to thunder's own scheduler; it only adds a
@@ -99,24 +121,37 @@ func TestCheck(t *testing.T) {
 	}
 }
 
-func tryBuild(s *schemaInst) (js []byte, built *graphql.Schema, err error) {
-	defer func() {
-		if p := recover(); p != nil {
-			err = fmt.Errorf("panic: %v", p)
-		}
+// tryBuild builds the schema twice, as a server does: once inside
+// introspection.ComputeSchemaJSON (the advertised graph) and once for
+// execution (with introspection added). berr: the builder refuses the schema;
+// ierr: the builder accepts it but the introspection query fails.
+func tryBuild(s *schemaInst) (js []byte, built *graphql.Schema, berr, ierr error) {
+	func() {
+		defer func() {
+			if p := recover(); p != nil {
+				berr = fmt.Errorf("panic: %v", p)
+			}
+		}()
+		built, berr = s.sb.Build()
 	}()
-	js, err = introspection.ComputeSchemaJSON(*s.sb)
-	if err != nil {
-		return nil, nil, err
+	if berr != nil {
+		return nil, nil, berr, nil
 	}
-	built = s.sb.MustBuild()
-	introspection.AddIntrospectionToSchema(built)
-	return js, built, nil
+	func() {
+		defer func() {
+			if p := recover(); p != nil {
+				ierr = fmt.Errorf("panic: %v", p)
+			}
+		}()
+		js, ierr = introspection.ComputeSchemaJSON(*s.sb)
+		introspection.AddIntrospectionToSchema(built)
+	}()
+	return js, built, nil, ierr
 }
 
 func runSchema(run *vlib.Run, l *local, i, nq int) {
 	s := newSchemaInst(i, run.Rand("schema", i))
-	js, built, err := tryBuild(s)
+	js, built, err, ierr := tryBuild(s)
 	if err != nil {
 		if s.feats["renamed_union_member"] {
 			// a builder that refuses this shape puts it outside the quantifier
@@ -125,6 +160,10 @@ func runSchema(run *vlib.Run, l *local, i, nq int) {
 			return
 		}
 		run.Broken(fmt.Sprintf("case %d: generated schema does not build: %v\n%s", i, err, vlib.Trunc(s.shape, 2000)))
+		return
+	}
+	if ierr != nil {
+		run.Violation(i, "", map[string]interface{}{"what": "the builder accepts the schema but the introspection query (accepted by PrepareQuery) fails on it", "err": ierr.Error(), "schema": vlib.Trunc(s.shape, 3000)})
 		return
 	}
 	adv, err := parseAdvert(js)
